@@ -18,6 +18,7 @@ pub struct EpCfg {
 	pub budget2: u64,
 	pub keep_log: bool,
 	pub try_max: u32,
+	pub poison_model: bool,
 }
 
 #[derive(Clone, Debug)]
@@ -150,6 +151,16 @@ pub fn run_concurrent(prog: &Program, cfg: &EpCfg) -> EpResult {
 	{
 		let mut g = w.g();
 		g.threads[main_tid as usize].status = Status::Finished;
+	}
+	if cfg.poison_model {
+		let tracked: Vec<LockId> = arena
+			.leaf_ids
+			.iter()
+			.zip(&arena.leaf_kinds)
+			.filter(|(_, k)| k.is_pois())
+			.map(|(id, _)| *id)
+			.collect();
+		w.pois_enable(&tracked);
 	}
 	let mut handles = Vec::new();
 	for (tid, acqs) in prog.threads.iter().enumerate() {
